@@ -235,10 +235,10 @@ def run_sound(scn, stats):
     r = sched.Run(drv, scn)
     # known finding R1 (owned by C07) makes the engine offer a join twice; the provider then holds two actions
     # for one execution record and what happens to the stale one is a consequence of R1: abandon the run there
-    stop = lambda rr: dw.dup  # noqa
+    stop = lambda rr: dw.dup or bool(fo.flow.late_arrivals)  # noqa
     try:
         r.run(stop=stop)
-        if dw.dup:
+        if dw.dup or fo.flow.late_arrivals:
             stats.excluded["R1"] += 1
             return
         if scn.get("rerun") and r.at_rest() and drv.status() == "failed" and fo.flow.unhandled and not fo.flow.fail_cmd:
@@ -247,7 +247,7 @@ def run_sound(scn, stats):
             feats.add("rerun")
             r.outcomes = {}
             r.finish(stop=stop)
-            if dw.dup:
+            if dw.dup or fo.flow.late_arrivals:
                 stats.excluded["R1"] += 1
                 return
         if drv.status() in provider.TERMINAL:
